@@ -239,6 +239,19 @@ func runC06(w *vx.W) {
 				handle(genSpec{Slot: gs, Msgs: [][]genFieldSet{{{tsSlot, 1}, {localSlot, vi}}}, HdrCRC: c&1 == 0, Big: c&2 != 0, Desc: fmt.Sprintf("timestamp + local timestamp value#%d", vi)}, "local-with-reference")
 			}
 		}
+		// a real daylight-saving zone shared by several local timestamps of one File, on both sides of a transition
+		if genDSTZone() != nil && gs.Slot.IsSlice {
+			n := len(genDSTInstants)
+			for a := 0; a < n; a++ {
+				for b := 0; b < n; b++ {
+					for c := 0; c < 2; c++ {
+						handle(genSpec{Slot: gs, Msgs: [][]genFieldSet{{{localSlot, 200 + a}}, {{localSlot, 200 + b}}, {{tsSlot, 1}, {localSlot, 200 + (a+b)%n}}}, HdrCRC: c == 0, Big: c == 1, Desc: fmt.Sprintf("local timestamps in a daylight-saving zone, instants #%d #%d", a, b)}, "local-dst-zone")
+					}
+				}
+			}
+		} else if genDSTZone() == nil && w.Shard == 0 {
+			w.Note("no zone database in this environment: the daylight-saving family of local timestamps is skipped")
+		}
 		// zone offsets that are not whole minutes or hours, in the same message and with the reference in an earlier message
 		for i := range genLocalOffsets {
 			for c := 0; c < 4; c++ {
